@@ -133,6 +133,12 @@ pub mod mpsc {
     }
     impl<T> UnboundedReceiver<T> {
         pub fn close(&mut self) { unsafe { (*self.inner).rx_alive = false; } }
+        /// Ok(Some) a message; Ok(None) closed and drained; Err empty but senders remain.
+        pub fn try_next(&mut self) -> Result<Option<T>, TryRecvError> {
+            let p = self.inner; let i = unsafe { &mut *p };
+            if let Some(v) = i.q.pop_front() { return Ok(Some(v)); }
+            if i.senders == 0 { Ok(None) } else { Err(TryRecvError) }
+        }
     }
     impl<T> Stream for UnboundedReceiver<T> {
         type Item = T;
